@@ -800,6 +800,8 @@ def gen_ops(rng, doc: Doc, n_ops: int):
             path = rng.choice(wrap)[0]
             sub = None if rng.random() < 0.5 or not n_com else \
                 sorted(rng.sample(range(n_com), rng.randrange(1, min(3, n_com) + 1)))
+            if sub is not None and rng.random() < 0.15:
+                sub = []          # an empty selection (a filter that matched nothing) selects nothing - it is not "all"
             ops.append([rng.choice(['claim_inter', 'unclaim_inter', 'reclaim_inter']), path, sub])
         else:
             pool = allm if rng.random() < 0.6 else allm[:1]
@@ -882,9 +884,15 @@ def apply_op(doc: Doc, op):
                     if len(doc.log) > k0 and doc.log[k0]['op'] == 'unclaim':
                         doc.log[k0]['mode'] = 2      # hypothesis of the restore theorem is evaluated here
             elif name == 'claim_inter':
+                before = doc.table() if arg == [] else None
                 tgt.claim_interleaving_comments(None if arg is None else comments_by_index(doc, arg))
+                if before is not None:
+                    extra['empty_selection'] = (before, doc.table())
             elif name == 'unclaim_inter':
+                before = doc.table() if arg == [] else None
                 tgt.unclaim_interleaving_comments(None if arg is None else comments_by_index(doc, arg))
+                if before is not None:
+                    extra['empty_selection'] = (before, doc.table())
             elif name == 'reclaim_inter':
                 mine = [it for it in tgt if type(it).__name__ == 'BlockComment']
                 if arg is not None:
@@ -1336,6 +1344,9 @@ def run_document(ctx, prop: str, lines, crlf, final_nl, ops_seed, n_ops, witness
             if 'restore' in extra and extra['restore'][0] != extra['restore'][1]:
                 mon('C14', 'C14:unclaim-claim', f'{op[0]} on {op[1]}: unclaim followed by claim does not restore '
                     f'the attribution', w)
+            if 'empty_selection' in extra and extra['empty_selection'][0] != extra['empty_selection'][1]:
+                mon('C14', 'C14:empty-selection-changed-ownership', f'{op[0]} on {op[1]} with an EMPTY list of comments changed '
+                    f'who owns which comment (an empty selection is not "all")', w)
             for m_ in extra.get('handover', []):
                 mon('C14', 'C14:hand-over', f'hand-over of the comment at line {op[2]["a"]} between its neighbours: {m_}', w)
             if op[0].startswith('reclaim') and exc:
